@@ -308,4 +308,34 @@ def observe (evs : List BodyEv) : List Out := run {} evs
 
 end Fixed
 
+/-! ### the response head: `ResponseFuture::poll` of `GrpcWebClientService` (client.rs)
+
+`Poll::Ready(res.map(|r| r.map(GrpcWebCall::client_response)))`: only the BODY of the inner
+service's response is wrapped; `http::Response::map` keeps status, version, headers and extensions
+as they are.  `client_response(body)` is `new_client(body, Direction::Decode, Encoding::None)`: the
+response's `content-type` (or anything else of the head) is not consulted — the body is always
+read as a binary grpc-web body, also when the response says `application/grpc-web-text`
+(`Encoding::from_content_type` is only used by the SERVER layer, for requests), and nothing is
+rewritten in the headers (in particular `content-type` is not turned into `application/grpc`). -/
+
+/-- status, version and headers of an HTTP response -/
+structure RespHead where
+  status : Nat := 200
+  version : WebServer.Ver := .h11
+  headers : List Pair := []
+  deriving DecidableEq, Repr
+
+/-- the `content-type` the response carries (`HeaderMap::get`: its first value) -/
+def RespHead.contentType (h : RespHead) : Option Bytes := WebServer.hget WebServer.CONTENT_TYPE h.headers
+
+/-- The `Encoding` the response body is decoded with: `client_response` passes `Encoding::None`
+whatever the response head says. -/
+def responseEncoding (_head : RespHead) : WebServer.Enc := .none
+
+/-- What the caller of the client layer gets for the inner service's response (`head`, body
+events `evs`): the head as it is, and the frames of `GrpcWebCall` in client/Decode mode with
+`Encoding::None` (`poll_decode` hands the inner frames on, `Fixed.run` is the loop around it). -/
+def respond (head : RespHead) (evs : List BodyEv) : RespHead × List Out :=
+  (head, Fixed.observe evs)
+
 end WebClient
